@@ -12,6 +12,9 @@
 (* Machines (variable `kind'):                                             *)
 (*   PID        streams::control::PIDControllerStream                      *)
 (*   CmdPID     streams::control::CommandPID                               *)
+(*   CmdPIDF    the same controller while it follows a command getter      *)
+(*              (update first forwards the getter's present command to     *)
+(*              set; an error of the followed getter aborts the update)    *)
 (*   EWMA/EWMAQ streams::control::EWMAStream  (f32 / Quantity variant)     *)
 (*   MA/MAQ     streams::control::MovingAverageStream (f32 / Quantity)     *)
 (*   Integral, Derivative              streams::math                       *)
@@ -37,7 +40,7 @@ CONSTANTS Kinds,      \* subset of AllKinds explored by this run
           Rich,       \* TRUE: larger alphabets (thorough tier)
           UnitGrid    \* TRUE: integral/derivative/to-state inputs range over the whole 7x7 unit grid
 
-AllKinds == {"PID", "CmdPID", "EWMA", "EWMAQ", "MA", "MAQ", "Integral", "Derivative",
+AllKinds == {"PID", "CmdPID", "CmdPIDF", "EWMA", "EWMAQ", "MA", "MAQ", "Integral", "Derivative",
              "AccToState", "VelToState", "PosToState", "F2Q", "Q2F", "Freeze"}
 
 VARIABLES kind, par, st, tw, sk, now, run, last, lastIn, hist, n, dead, sh
@@ -62,6 +65,11 @@ Params(k) ==
          (IF Rich THEN {[sp |-> RI(-1), kp |-> RI(-1), ki |-> Zero, kd |-> R(1, 2)],
                         [sp |-> Zero, kp |-> Zero, ki |-> RI(1), kd |-> Zero]} ELSE {})
     [] k = "CmdPID" ->
+         {[cmd |-> [k |-> ck, v |-> RI(2)],
+           gains |-> << [kp |-> RI(1), ki |-> RI(2), kd |-> RI(4)],
+                        [kp |-> RI(2), ki |-> RI(4), kd |-> RI(1)],
+                        [kp |-> RI(4), ki |-> RI(1), kd |-> RI(2)] >>] : ck \in 0..2}
+    [] k = "CmdPIDF" ->
          {[cmd |-> [k |-> ck, v |-> RI(2)],
            gains |-> << [kp |-> RI(1), ki |-> RI(2), kd |-> RI(4)],
                         [kp |-> RI(2), ki |-> RI(4), kd |-> RI(1)],
@@ -98,6 +106,10 @@ Alphabet(k) ==
   CASE k = "CmdPID" ->
          {SomeEv(v, dt) : v \in TripleVals, dt \in DtSet(k)} \cup {NoneEv} \cup {ErrEv(e) : e \in Errors}
          \cup {SetEv(ck, RI(2)) : ck \in 0..2} \cup {SetEv(1, RI(-1))}
+    [] k = "CmdPIDF" ->
+         {SomeEv(v, 1) : v \in {V3(1, 2, -1), V3(3, -1, 2)}} \cup {NoneEv, ErrEv(1)} \cup
+         {[c |-> "fol", o |-> o] : o \in {[c |-> "none"], [c |-> "err", e |-> 2], [c |-> "some", k |-> 1, v |-> RI(-1)],
+                                          [c |-> "some", k |-> 0, v |-> RI(2)], [c |-> "some", k |-> 2, v |-> RI(2)]}}
     [] k = "Freeze" ->
          {[c |-> "fz", cond |-> b, in |-> i] :
              b \in BoolOutcomes,
@@ -111,6 +123,9 @@ Alphabet(k) ==
 IsReset(k, s, ev) ==
   CASE k \in {"PID", "Integral", "Derivative"} -> ev.c \in {"none", "err"}
     [] k = "CmdPID" -> ev.c \in {"none", "err"} \/ (ev.c = "set" /\ [k |-> ev.k, v |-> ev.v] # s.cmd)
+    [] k = "CmdPIDF" ->         \* an update that goes through resets on absent / error input, or when the followed command differs
+         /\ ev.c # "fol" /\ s.fol.c # "err"
+         /\ (ev.c \in {"none", "err"} \/ (s.fol.c = "some" /\ [k |-> s.fol.k, v |-> s.fol.v] # s.cmd))
     [] k \in {"EWMA", "EWMAQ", "MA", "MAQ", "AccToState", "VelToState", "PosToState"} -> ev.c = "err"
     [] k \in {"F2Q", "Q2F"} -> TRUE          \* memoryless: every event is a fresh start
     [] k = "Freeze" -> FALSE
@@ -121,6 +136,7 @@ IgnoresAbsent(k) == k \in {"EWMA", "EWMAQ", "MA", "MAQ", "AccToState", "VelToSta
 InitSt(k, p) ==
   CASE k = "PID"  -> [prev |-> Nothing, integ |-> Zero, out |-> Absent]
     [] k = "CmdPID" -> [cmd |-> p.cmd, lastReq |-> Nothing, u |-> [c |-> "empty"]]
+    [] k = "CmdPIDF" -> [cmd |-> p.cmd, lastReq |-> Nothing, u |-> [c |-> "empty"], fol |-> [c |-> "none"]]
     [] k \in {"EWMA", "EWMAQ"} -> [value |-> Absent, upd |-> Nothing]
     [] k \in {"MA", "MAQ"} -> [value |-> Absent, q |-> <<>>]
     [] k \in {"Integral", "Derivative"} -> [value |-> Absent, prev |-> Nothing]
@@ -130,7 +146,9 @@ InitSt(k, p) ==
 
 (* A newly constructed stream; a command PID is constructed with the      *)
 (* command currently in effect.                                            *)
-FreshSt(k, p, s) == IF k = "CmdPID" THEN [InitSt(k, p) EXCEPT !.cmd = s.cmd] ELSE InitSt(k, p)
+FreshSt(k, p, s) == IF k = "CmdPID" THEN [InitSt(k, p) EXCEPT !.cmd = s.cmd]
+                    ELSE IF k = "CmdPIDF" THEN [InitSt(k, p) EXCEPT !.cmd = s.cmd, !.fol = s.fol]      \* follows the same getter
+                    ELSE InitSt(k, p)
 
 (* PIDControllerStream::update *)
 PIDStep(p, s, ev, t) ==
@@ -234,9 +252,17 @@ FreezeStep(s, ev, t) ==
     [] ev.cond.c = "true"  -> s
     [] ev.cond.c = "false" -> [fv |-> InOutcome(ev.in, t)]
 
+(* CommandPID::update while following: update_following_data first *)
+CmdFolStep(p, s, ev, t) ==
+  IF ev.c = "fol" THEN [s EXCEPT !.fol = ev.o]                              \* the followed getter's output changes; nothing else happens
+  ELSE IF s.fol.c = "err" THEN s                                            \* the getter's error aborts the update before the input is read
+  ELSE LET s1 == IF s.fol.c = "some" THEN CmdStep(p, s, [c |-> "set", k |-> s.fol.k, v |-> s.fol.v], t) ELSE s
+       IN  CmdStep(p, s1, ev, t)
+
 StepSt(k, p, s, ev, t) ==
   CASE k = "PID" -> PIDStep(p, s, ev, t)
     [] k = "CmdPID" -> CmdStep(p, s, ev, t)
+    [] k = "CmdPIDF" -> CmdFolStep(p, s, ev, t)
     [] k \in {"EWMA", "EWMAQ"} -> EWMAStep(p, s, ev, t)
     [] k \in {"MA", "MAQ"} -> MAStep(p, s, ev, t)
     [] k \in {"Integral", "Derivative"} -> IDStep(k, s, ev, t)
@@ -247,7 +273,7 @@ StepSt(k, p, s, ev, t) ==
 (* What get() returns. *)
 Obs(k, s) ==
   CASE k = "PID" -> s.out
-    [] k = "CmdPID" -> CmdObs(s)
+    [] k \in {"CmdPID", "CmdPIDF"} -> CmdObs(s)
     [] k \in {"EWMA", "EWMAQ", "MA", "MAQ", "Integral", "Derivative", "F2Q", "Q2F"} -> s.value
     [] k \in {"AccToState", "VelToState", "PosToState"} -> ToStateObs(k, s)
     [] k = "Freeze" -> s.fv
@@ -275,7 +301,7 @@ Panics(k, p, ev) ==
   /\ DimCheck
   /\ p.unit # ExpectedUnit(k)
 
-HasTime(k, ev) == IF k = "Freeze" THEN ev.in.c = "some" ELSE ev.c = "some"
+HasTime(k, ev) == IF k = "Freeze" THEN ev.in.c = "some" ELSE ev.c = "some"      \* (a sample whose update is aborted still advances the clock)
 EvDt(k, ev) == IF k = "Freeze" THEN ev.in.dt ELSE ev.dt
 
 -----------------------------------------------------------------------------
@@ -295,7 +321,9 @@ Init ==
   /\ sh = InitShape(kind, IF kind = "CmdPID" THEN par.cmd.k ELSE 0)
 
 RunNext(k, s, ev, t) ==
-  IF IsReset(k, s, ev) THEN <<>>
+  IF k = "CmdPIDF" /\ (ev.c = "fol" \/ s.fol.c = "err") THEN run                \* nothing was read
+  ELSE IF IsReset(k, s, ev) /\ ev.c = "some" THEN <<[t |-> t, v |-> ev.v]>>     \* reset by the followed command, then this sample
+  ELSE IF IsReset(k, s, ev) THEN <<>>
   ELSE IF ev.c = "some" THEN Append(run, [t |-> t, v |-> ev.v])
   ELSE run
 
@@ -315,7 +343,7 @@ Update(ev) ==
   /\ n' = n + 1
   /\ now' = t
   /\ last' = ev
-  /\ lastIn' = IF ev.c = "set" THEN lastIn ELSE ev
+  /\ lastIn' = IF ev.c \in {"set", "fol"} \/ (kind = "CmdPIDF" /\ st.fol.c = "err") THEN lastIn ELSE ev   \* the input was not read
   /\ UNCHANGED <<kind, par>>
   /\ IF Panics(kind, par, ev)
      THEN /\ dead' = TRUE
@@ -326,9 +354,10 @@ Update(ev) ==
           /\ tw' = StepSt(kind, par, IF reset THEN FreshSt(kind, par, st) ELSE tw, ev, t)
           /\ sk' = IF IgnoresAbsent(kind) /\ ev.c = "none" THEN sk ELSE StepSt(kind, par, sk, ev, t)
           /\ run' = RunNext(kind, st, ev, t)
-          /\ sh' = ShapeStep(kind, sh, EvShape(kind, st, ev))
+          /\ sh' = IF kind = "CmdPIDF" THEN sh ELSE ShapeStep(kind, sh, EvShape(kind, st, ev))   \* the value-free abstraction does not cover following
           /\ hist' = IF Emit
-                     THEN Append(hist, [in |-> ev, t |-> t, ret |-> Ret(kind, ev), reset |-> reset,
+                     THEN Append(hist, [in |-> ev, t |-> t, reset |-> reset,
+                                        ret |-> IF kind = "CmdPIDF" /\ ev.c # "fol" /\ st.fol.c = "err" THEN RetErr(st.fol.e) ELSE Ret(kind, ev),
                                         out |-> Obs(kind, st')])
                      ELSE hist
 
@@ -413,7 +442,7 @@ ToStateRef ==
 
 (* C11: PID law on the run, its trapezoid integral, and the integral of that. *)
 CmdRef ==
-  (kind = "CmdPID" /\ last.c = "some") =>
+  (kind \in {"CmdPID", "CmdPIDF"} /\ last.c = "some" /\ (kind = "CmdPIDF" => st.fol.c # "err")) =>
      LET k == st.cmd.k
          g == par.gains[k + 1]
          er == Map(run, LAMBDA i : RSub(st.cmd.v, Comp(run[i].v, k)))
@@ -459,7 +488,7 @@ EWMALaw ==
 (* The value-free abstraction of StreamShapes commutes with the machines: it predicts the category of *)
 (* the output, the cached error identity, the number of samples since the last reset and what update() returns. *)
 ShapeCommutes ==
-  ~dead =>
+  (~dead /\ kind # "CmdPIDF") =>
      /\ sh.cat = Obs(kind, st).c
      /\ (sh.cat = "err" => sh.e = Obs(kind, st).e)
      /\ (kind \notin {"F2Q", "Q2F", "Freeze"} => sh.cnt = Cap3(Len(run)))
